@@ -95,7 +95,8 @@ BeginTagsW(pre, c, e, post, newC, r, d, cc) ==
        \cup (IF d \cap {"tmSet", "prevPower", "prevTotal"} # {} THEN {"C22"} ELSE {})
        \cup (IF "claims" \in d \/ post.claims # {x \in pre.claims : x.expires > e.h} THEN {"C32"} ELSE {})
        \cup (IF d \cap {"app", "appIx", "appUnst"} # {} THEN {"C28"} ELSE {})
-       \cup (IF "bal" \in d /\ BalOf(r.s, NODEPOOL) = BalOf(post, NODEPOOL) /\ BalOf(r.s, APPPOOL) = BalOf(post, APPPOOL) THEN {"MODEL"} ELSE {})
+       \* the distribution of the collected fees (DAO cut, proposer's output address and delegators)
+       \cup (IF "bal" \in d /\ BalOf(r.s, NODEPOOL) = BalOf(post, NODEPOOL) /\ BalOf(r.s, APPPOOL) = BalOf(post, APPPOOL) THEN {"C26"} ELSE {})
        \cup (IF newC # r.c THEN {"C37"} ELSE {})
        \cup CommonTags(d, r.s, post)
 BeginTags(pre, c, e, post, newC) ==
@@ -138,14 +139,24 @@ KnownEditBypass(e) == e.tx.kind = "node_unjail" /\ e.tx.node \in gh.editedJ
 KnownOr(id, tag) == IF id \in Known THEN id ELSE tag
 
 \* statements of the claims properties on the real outcome (as in TraceChainClaims)
-ClaimsPropTags(pre, e) ==
+\* C31: a claim was accepted although the block whose hash selects the leaf to prove already existed.
+\* Two listed patterns: F-C31 (the last accepted height is one past the selecting block) and
+\* F-C31-param-change, found by the whole-chain traces: ValidateClaim decides the END of the claim
+\* window with the CURRENT pos/BlocksPerSession and pocketcore/ClaimSubmissionWindow, the selecting
+\* block is computed from the parameters of the SESSION's context - after a governance raise of either
+\* parameter, sessions whose selecting block is long known accept claims again.
+Known_C31_ParamChange(h, S, Bs, Ws, Bc, Wc) == (Bc # Bs \/ Wc # Ws) /\ h > K!LastClaimHeight(S, Bs, Ws)
+ClaimsPropTags(pre, cc, e) ==
     LET tx == e.tx h == e.h ok == e.res.code = 0 S == tx.sessionH IN
     (IF tx.kind = "claim" /\ ok /\ S < h /\ HasHist(S)
        THEN LET cs == CfgAt(S)
                 B  == cs.nodeParams.SessionBlockFrequency
                 W  == cs.pcParams.ClaimSubmissionWindow
             IN IF K!EntropyHeight(S, B, W) \notin K!Known(h) THEN {}
-               ELSE IF K!Known_C31_Boundary(h, S, B, W) THEN {KnownOr("F-C31", "C31")} ELSE {"C31"}
+               ELSE IF K!Known_C31_Boundary(h, S, B, W) THEN {KnownOr("F-C31", "C31")}
+               ELSE IF Known_C31_ParamChange(h, S, B, W, cc.nodeParams.SessionBlockFrequency, cc.pcParams.ClaimSubmissionWindow)
+                      THEN {KnownOr("F-C31-param-change", "C31")}
+               ELSE {"C31"}
        ELSE {})
     \cup (IF tx.kind = "proof" /\ ok /\ K!ClaimKey(tx) \in gh.paid /\ HasHist(S)
             THEN LET cs == CfgAt(S)
@@ -161,7 +172,10 @@ DeliverTagsD(pre, c, e, post, newC, r, cc, d) ==
         own == KindTag(pre, cc, tx, h)
         fee1 == ChargeFee(pre, tx)
         replay == tx.kind = "proof" /\ HistOK(pre, tx, h) /\ K!ProofClass(fee1, cc, tx, h, StAt, CfgAt) = "replay"
-    IN     (IF d # {} \/ ok # r.ok \/ newC # r.c THEN {own} ELSE {})
+        \* a proof whose payment differs only in WHO received HOW MUCH (claims, supply, result agree) is
+        \* about the split of the reward (C26), not about whether the claim was rewarded (C32)
+        splitOnly == tx.kind = "proof" /\ d = {"bal"} /\ ok = r.ok /\ newC = r.c
+    IN     (IF d # {} \/ ok # r.ok \/ newC # r.c THEN {IF splitOnly THEN "C26" ELSE own} ELSE {})
             \cup (IF "supply" \in d THEN {"C17"} ELSE {})
             \cup (IF BalOf(post, FEE) # BalOf(r.s, FEE) THEN {"C15"} ELSE {})
             \cup (IF tx.fee < RequiredFee(cc, tx) THEN {IF tx.multisig THEN KnownOr("F-C15-multisig", "C15") ELSE "C15"} ELSE {})
@@ -188,7 +202,7 @@ DeliverTagsD(pre, c, e, post, newC, r, cc, d) ==
                                /\ ((tx.kind = "dao_transfer" /\ tx.to = DAO) \/ G!Step_C36_Dao(pre, tx, post, ok)), "C36")
                          \cup IfNot(G!Step_C37_Upgrade(pre, tx, post, ok), "C37")
                     ELSE {})
-            \cup (IF tx.kind \in K!ClaimsKinds THEN ClaimsPropTags(pre, e) ELSE {})
+            \cup (IF tx.kind \in K!ClaimsKinds THEN ClaimsPropTags(pre, cc, e) ELSE {})
 
 DeliverTagsW(pre, c, e, post, newC, r, cc) ==
     IF r.class # "ok"
@@ -318,6 +332,7 @@ C22_UpdatesMatchTopStaked            == ~Tagged("C22")
 C23_EditStakeRules                   == ~Tagged("C23")
 C24_UnstakeOnceWhenDue               == ~Tagged("C24")
 C25_SlashJailRules                   == ~Tagged("C25")
+C26_RewardsAndFeesSplit              == ~Tagged("C26")
 C28_AdmissionAndTransfer             == ~Tagged("C28")
 C31_ProofLeafUnpredictable           == ~Tagged("C31")
 C32_ClaimsRewardedOnceWithProof      == ~Tagged("C32") /\ ~Tagged("BIND")
